@@ -1,8 +1,9 @@
 ------------------------------- MODULE Joins -------------------------------
 (* C39 - joins and concatenation equal pandas: reference semantics over row ids.
 
-   An OPERAND ROW is a record [rid, idx, k] (Frames.tla rows plus one key
-   column k); rid >= 1 is unique within its frame and is carried through the
+   An OPERAND ROW is a record [rid, idx, k, k2] (Frames.tla rows plus the key
+   column k and a second key column k2 for multi-column joins); rid >= 1 is
+   unique within its frame and is carried through the
    real operation as an ordinary column (lrid on the left, rrid on the right),
    so every output row names the input rows it came from; 0 = "no row".
    Cells are small integers or NA (= 99: a missing key MATCHES a missing key,
@@ -12,7 +13,8 @@
 
    Nothing here depends on how the operands are partitioned, on declared
    divisions, on the join strategy (hash / broadcast / partition-wise), the
-   shuffle method or the number of output partitions: that is the property.
+   shuffle method, the number of output partitions, or on what the operands went
+   through BEFORE the join (see PRE-PARTITIONED OPERANDS): that is the property.
    Row ORDER is only demanded where pandas and dask both promise it (MergeSeq
    for index-aligned joins of sorted operands with known divisions, ConcatRows
    for axis-0 concatenation that does not interleave, AsofPairs).            *)
@@ -28,14 +30,17 @@ Asc(S) == SetToSortSeq(S, LAMBDA a, b : a < b)
 (* MERGE / JOIN.   mode = <left key><right key>, c = the column k, i = the index:
      "cc"  merge(on = "k")  or  merge(left_on = "k", right_on = "kr")
      "ii"  merge(left_index, right_index)  /  DataFrame.join(other)
-     "ic"  merge(left_index, right_on = "k")      "ci"  merge(left_on = "k", right_index)            *)
+     "ic"  merge(left_index, right_on = "k")      "ci"  merge(left_on = "k", right_index)
+     "kk"  merge(on = ["k", "k2"])  or  merge(left_on = ["k", "k2"], right_on = ["kr", "kr2"]): the key is the PAIR  *)
 Hows  == {"inner", "left", "right", "outer", "leftsemi"}
-Modes == {"cc", "ii", "ic", "ci"}
+Modes == {"cc", "ii", "ic", "ci", "kk"}
 \* leftsemi needs the right key to be a column (documented NotImplementedError otherwise)
-HowsOf(mode) == IF mode \in {"cc", "ic"} THEN Hows ELSE Hows \ {"leftsemi"}
+HowsOf(mode) == IF mode \in {"cc", "ic", "kk"} THEN Hows ELSE Hows \ {"leftsemi"}
 
-LKey(row, mode) == IF mode \in {"ii", "ic"} THEN row.idx ELSE row.k
-RKey(row, mode) == IF mode \in {"ii", "ci"} THEN row.idx ELSE row.k
+LKey(row, mode) == IF mode \in {"ii", "ic"} THEN row.idx ELSE IF mode = "kk" THEN <<row.k, row.k2>> ELSE row.k
+RKey(row, mode) == IF mode \in {"ii", "ci"} THEN row.idx ELSE IF mode = "kk" THEN <<row.k, row.k2>> ELSE row.k
+\* the key cell of a side that contributes no row
+NoKey(mode) == IF mode = "kk" THEN <<NA, NA>> ELSE NA
 
 \* positions of the partner rows: equal keys match - duplicates multiply, NA = NA
 RightOf(L, R, mode, i) == { j \in DOMAIN R : LKey(L[i], mode) = RKey(R[j], mode) }
@@ -62,13 +67,13 @@ RVal(rid) == 20 + rid
 (* One output row, as the tuple <<l, r, m, kl, kr, kc, vx, vy>>:
      l, r    the rids of the contributing rows (0 = none)
      m       the indicator: 0 both, 1 left_only, 2 right_only
-     kl, kr  the key cell of the left / right row (NA when there is none)
+     kl, kr  the key cell of the left / right row (NA when there is none; a pair <<k, k2>> in mode "kk")
      kc      the coalesced key (what pandas puts into a shared key column / the joined index)
      vx, vy  the overlapping value column of either side (NA when there is no row)                   *)
 OutRow(L, R, how, mode, p) ==
   LET i == p[1]   j == p[2]
-      kl == IF i = 0 THEN NA ELSE LKey(L[i], mode)
-      kr == IF j = 0 THEN NA ELSE RKey(R[j], mode)
+      kl == IF i = 0 THEN NoKey(mode) ELSE LKey(L[i], mode)
+      kr == IF j = 0 THEN NoKey(mode) ELSE RKey(R[j], mode)
   IN << IF i = 0 THEN NoRow ELSE L[i].rid,
         IF j = 0 THEN NoRow ELSE R[j].rid,
         IF how = "leftsemi" THEN 0 ELSE IF j = 0 THEN 1 ELSE IF i = 0 THEN 2 ELSE 0,
@@ -86,7 +91,33 @@ MergeRows(L, R, how, mode) == { OutRow(L, R, how, mode, p) : p \in PosPairs(L, R
 Mask(naming) == << 1, 1, 1, IF naming = "lr" THEN 1 ELSE 0, IF naming = "lr" THEN 1 ELSE 0, IF naming = "on" THEN 1 ELSE 0, 1, 1 >>
 Judged(t, naming, indicator) ==
   [q \in 1..8 |-> IF Mask(naming)[q] = 1 /\ (q # 3 \/ indicator) THEN t[q] ELSE 0]
-NamingsOf(mode) == IF mode = "cc" THEN {"on", "lr"} ELSE IF mode = "ii" THEN {"on"} ELSE {"none"}
+NamingsOf(mode) == IF mode \in {"cc", "kk"} THEN {"on", "lr"} ELSE IF mode = "ii" THEN {"on"} ELSE {"none"}
+
+(* PRE-PARTITIONED OPERANDS.  `pre` = [how, on] says what an operand went through before the join:
+     [how |-> "none", on |-> <<>>]    nothing: a freshly built collection
+     how = "shuffle"    hash-shuffled on the columns `on` (K')
+     how = "merge"      the result of an earlier inner hash join on K' with a frame that holds every K' combination once
+     how = "groupby"    the result of groupby(K', dropna = FALSE).first(split_out = n).reset_index(); the rows are distinct on K'
+     how = "setindex"   set_index on (a copy of) the single column K'
+   `on` is a sequence over {"k", "k2", "v", "rid"} and stands in ANY relation to the join keys K: equal, a proper subset,
+   a proper superset, overlapping, disjoint.  Every such stage returns the same multiset of rows (that is what a
+   shuffle is), it only leaves partitioning knowledge behind - and NOTHING of the semantics below looks at `pre`:
+   partitioning knowledge may let dask skip work, it must never change a result.                                *)
+NoPre == [how |-> "none", on |-> <<>>]
+ColOf(row, c) == CASE c = "k" -> row.k [] c = "k2" -> row.k2 [] OTHER -> row.rid       \* "v" is a function of the rid
+PreKey(row, on) == [q \in DOMAIN on |-> ColOf(row, on[q])]
+\* what the harness has to respect when it builds such an operand
+PreOK(rows, pre) ==
+  CASE pre.how = "none"     -> pre.on = <<>>
+    [] pre.how = "groupby"  -> pre.on # <<>> /\ \A i, j \in DOMAIN rows : i # j => PreKey(rows[i], pre.on) # PreKey(rows[j], pre.on)
+    [] pre.how = "setindex" -> Len(pre.on) = 1 /\ \A i \in DOMAIN rows : ColOf(rows[i], pre.on[1]) # NA
+    [] pre.how \in {"shuffle", "merge"} -> pre.on # <<>>
+    [] OTHER -> FALSE
+KeyCols(mode) == IF mode = "kk" THEN {"k", "k2"} ELSE IF mode = "cc" THEN {"k"} ELSE {}
+PreRelation(pre, mode) ==
+  LET kp == SeqSet(pre.on)   kk == KeyCols(mode) IN
+  IF pre.how = "none" THEN "none" ELSE IF kp = kk THEN "equal" ELSE IF kp \subseteq kk THEN "subset"
+  ELSE IF kk \subseteq kp THEN "superset" ELSE IF kp \cap kk # {} THEN "overlap" ELSE "disjoint"
 
 \* name of a clause if it fails (the same shape as TraceIO!Clause; this module does not depend on TraceIO)
 Fails(name, holds) == IF holds THEN {} ELSE {name}
@@ -145,7 +176,7 @@ MergeBad(r) ==
       want == { Judged(t, r.naming, r.ind) : t \in MergeRows(r.L, r.R, r.how, r.mode) }
       got  == [q \in DOMAIN ObsTuples(obs) |-> Judged(ObsTuples(obs)[q], r.naming, r.ind)]
       wseq == LET s == MergeSeq(r.L, r.R, r.how, r.mode) IN [q \in DOMAIN s |-> Judged(s[q], r.naming, r.ind)]
-  IN IF r.how \notin HowsOf(r.mode) \/ r.naming \notin NamingsOf(r.mode) THEN {"BadCase"}
+  IN IF r.how \notin HowsOf(r.mode) \/ r.naming \notin NamingsOf(r.mode) \/ ~PreOK(r.L, r.lpre) \/ ~PreOK(r.R, r.rpre) THEN {"BadCase"}
      ELSE IF obs.raised # "" THEN {"Raised"}
      ELSE Fails("Rows", BagIsSet(got, want))
           \cup Fails("Order", OrderPromised(r.L, r.R, r.how, r.mode, r.lknown, r.rknown) /\ BagIsSet(got, want) => KeySeqOf(got) = KeySeqOf(wseq))
